@@ -1,8 +1,9 @@
 """C11 — child-side execution: one object used as a type hint is pushed through the public entry points of the REAL
 beartype and every outcome (escaping exception object, warnings) is recorded as plain data.
 
-A case runs in a freshly forked child of a pristine parent (beartype imported, no hint ever processed), so that every
-record is a deterministic function of the case alone (beartype memoises hints, reducers and raised exceptions globally).
+A case (a short list of hints) runs in a freshly forked child of a pristine parent (beartype imported, no hint but a
+private warm-up class ever processed), so that every record is a deterministic function of the case alone (beartype memoises
+hints, reducers and raised exceptions globally).
 """
 from __future__ import annotations
 
@@ -119,7 +120,8 @@ def run_hint(node, apis, objs, with_descr=True) -> list:
     """all records of one hint"""
     from beartype import beartype
     from beartype.door import TypeHint, die_if_unbearable, is_bearable, is_subhint
-    H.RAISED.clear()
+    # H.RAISED is NOT cleared between the hints of one child: beartype memoises exceptions (callable_cached), so the user
+    # exception escaping now may be the very object user code raised while an earlier hint of this history was processed
     H.SCRIPTS.clear()
     try:
         h = H.build(node)
@@ -202,7 +204,7 @@ def run_user(sc) -> dict:
     """sc = {'params': [spec…], 'good': [bool…], 'body': 'return'|'raise', 'ret': spec|None, 'entry': 'wrapper'|'is_bearable'|'die_if_unbearable'}"""
     from beartype import beartype
     from beartype.door import die_if_unbearable, is_bearable
-    H.RAISED.clear()
+    n_before = len(H.RAISED)
     H.SCRIPTS.clear()
     if sc['entry'] == 'wrapper':
         names = [f'p{i}' for i in range(len(sc['params']))]
@@ -231,9 +233,8 @@ def run_user(sc) -> dict:
                 die_if_unbearable(obj, hint)
         out = observe(call)
         out['value'] = box.get('v')
-    out['raised_ids'] = [s for _, s in H.RAISED]
-    out['n_raised'] = len(H.RAISED)
-    out['which'] = next((i for i, (x, _) in enumerate(H.RAISED) if out.get('user_same') and False), None)
+    out['raised_ids'] = [s for _, s in H.RAISED[n_before:]]
+    out['n_raised'] = len(H.RAISED) - n_before
     out['invocations'] = [s.n for s in H.SCRIPTS]
     return out
 
